@@ -809,44 +809,43 @@ class Reporter:
                        "leave_live": True, "observed": rec, "sanitizer": san[:1500]})
 
     def _hook_eof(self, source, rec, mine, proc, behaviours, tails, svcs, timeout_on, table):
+        """End of input was not clean for one process: find a behaviour of that process that fails on its own.  All
+        candidate histories are self-contained (the withdrawals the replay appends are written out; nothing is added)."""
         ctx = self.ctx
         bis = proc["bis"]
         culprit = None
-        leave = False
         # 1. the behaviour that was left unfinished at end of input
         if proc["live_last"] and bis:
             ev = behaviours[bis[-1]]
             if self._again(ev, mine, svcs, timeout_on, True):
-                culprit, leave = ev, True
+                culprit = ev
         # 2. each behaviour of the process on its own (driven to its end)
         if culprit is None:
             cands = [behaviours[b] + (tails[b] if tails else []) + R._cleanup_events(behaviours[b]) for b in bis[:48]]
-            outs = batch_eval(ctx, cands, svcs, timeout_on, False, tag="eof")
+            outs = batch_eval(ctx, cands, svcs, timeout_on, True, tag="eof")
             for c, o in zip(cands, outs):
                 if o & mine:
-                    if self._again(c, mine, svcs, timeout_on, False):
-                        culprit, leave = c, False
+                    if self._again(c, mine, svcs, timeout_on, True):
+                        culprit = c
                         break
         if culprit is None:
             ctx.note("end-of-input finding %s of one process (%d behaviours, %s) did not repeat on fresh daemons (not reported)"
                      % (sorted(mine), len(bis), san_kind(rec.get("san"))))
             return
-        small = shrink(ctx, culprit, mine, svcs, timeout_on, leave)
-        key = (tuple(sorted(mine)), ev_sig(small)[-300:], leave)
+        small = shrink(ctx, culprit, mine, svcs, timeout_on, True)
+        key = (tuple(sorted(mine)), ev_sig(small)[-300:])
         if key in self.seen:
             return
         self.seen.add(key)
         conj = "+".join(sorted(mine))
         kind = san_kind(rec.get("san"))
         self._class_count(mine, kind, "eof")
-        sig = "%s%s at end of input%s: %s" % (conj, (" (" + kind + ")") if kind else "",
-                                              " with requests pending" if leave else "", ev_sig(small))
+        sig = "%s%s at end of input after: %s" % (conj, (" (" + kind + ")") if kind else "", ev_sig(small))
         self.nreports += 1
-        ctx.violation("end of input after history [%s]%s: exit status %s, sanitizer report: %s (%s)"
-                      % (ev_sig(small), " (requests still pending)" if leave else "", rec.get("exit"),
-                         kind or "none", source), conj, sig,
+        ctx.violation("end of input after history [%s]: exit status %s, sanitizer report: %s (%s)"
+                      % (ev_sig(small), rec.get("exit"), kind or "none", source), conj, sig,
                       {"kind": "c10-hook", "table": table, "svcs": svcs, "timeout_on": timeout_on, "events": small,
-                       "leave_live": leave, "observed": rec, "sanitizer": (rec.get("san") or "")[:1500]})
+                       "leave_live": True, "observed": rec, "sanitizer": (rec.get("san") or "")[:1500]})
 
     # -- real-timer traces --------------------------------------------------------------------------------------
     def rt(self, source, out, vals, histories, svcs, timing):
